@@ -49,8 +49,9 @@ def write_binary_dict(data: tp.Dict[str, bytes], stream: tp.IO[bytes]) -> None:
     """
     _write_unsigned_number(stream, len(data), DICT_SIZE_BYTE_SIZE)
     for key, val in data.items():
-        _write_unsigned_number(stream, len(key), DICT_KEY_BYTE_SIZE)
-        stream.write(key.encode(encoding='utf-8'))
+        key_bytes = key.encode(encoding='utf-8')
+        _write_unsigned_number(stream, len(key_bytes), DICT_KEY_BYTE_SIZE)
+        stream.write(key_bytes)
         _write_unsigned_number(stream, len(val), DICT_VALUE_BYTE_SIZE)
         stream.write(val)
 
